@@ -6,12 +6,15 @@ import GeosModel.Model.Precision.Round
 import GeosModel.Model.Precision.HotPixel
 import GeosModel.Model.Precision.Reduce
 import GeosModel.Model.Precision.Near
+import GeosModel.Model.Precision.Collapse
 /-! Driver for C04 (exe `drv_c04`).
 
 * `precise`   : `<newScale> <v>*`                        → `<scale> <makePrecise v>*`  (bits; floating model)
 * `hotpixel` (`hotpixel-div`: alternative scaling convention)  : `<sf> <ptx> <pty> <p0x> <p0y> <p1x> <p1y>` → 4 chars: intersects(p0) intersects(p1) intersects(p0,p1) intersects(p1,p0)
 * `prec-ops`  : `O <op> <flags> <g> | A | B | <ok|ex> R | valid=<0|1|->` → `ok` / `bad <what> …` / `skip <why>`
 * `prec-ops-stat` : same input, answers `ok far=<n> in=<n> verts=<n>` (distribution only)
+* `collapse`  : `K <g> | A | B | he=<x><y> | I | U | D | S | D(B,A)` (results as `ok R` / `ex -`; `he` = hasEdgesFor(0) hasEdgesFor(1) of the
+                real `EdgeNodingBuilder`) → `ok` / `bad collapse-model …` / `bad collapse-law …` / `bad exception …`
 -/
 namespace Driver.C04
 open GeosModel GeosModel.Precision GeosModel.Relate GeosModel.Kernel Driver.Flatten
@@ -168,6 +171,64 @@ def precOps (stat : Bool) (line : String) : String :=
     | _, _, _ => "parse-error geometry"
   | _ => "bad-line"
 
+/-! ### collapse -/
+
+def nzBits (u : UInt64) : UInt64 := if u == 0x8000000000000000 then 0 else u
+
+/-- the images of all vertices of a geometry under the floating `makePrecise` -/
+def roundedVerts (pm : PM) (g : G) : List (UInt64 × UInt64) :=
+  (leavesG g).flatMap fun l => l.pts.map fun p => (nzBits (pm.makePreciseBits p.1), nzBits (pm.makePreciseBits p.2))
+
+def polyOnly (g : G) : Bool := let ls := leavesG g; !ls.isEmpty && ls.all (·.kind == 2)
+def edgeBearing (g : G) : Bool := let ls := leavesG g; !ls.isEmpty && ls.all (·.kind != 0)
+
+def parseRes (t : List String) : Option (Option G) :=
+  match t with
+  | "ex" :: _ => some none
+  | "ok" :: rt => match Driver.GTreeIO.parseGeom rt with
+    | some (g, []) => some (some g.g)
+    | _ => none
+  | _ => none
+
+def collapseLine (line : String) : String :=
+  match splitBar (Driver.tokens line) with
+  | [hdr, ta, tb, he, tI, tU, tD, tS, tR] =>
+    match hdr, parseGeomOpt ta, parseGeomOpt tb, he with
+    | ["K", gh], some (some A), some (some B), [heTok] =>
+      match Driver.parseHex64 gh, parseRes tI, parseRes tU, parseRes tD, parseRes tS, parseRes tR with
+      | some gbits, some rI, some rU, some rD, some rS, some rR =>
+        let gv := vFabs (F64.decode gbits)
+        if !(vIsFin gv) || vIsZero gv then "skip grid-size-not-positive-finite" else
+        let pm := PM.ofGridSize gv
+        match rI, rU, rD, rS, rR with
+        | some rI, some rU, some rD, some rS, some rR =>
+          let flags := (heTok.drop 3).toString.toList
+          let h0 := flags[0]? ; let h1 := flags[1]?
+          -- the model of "no edge survives": every vertex rounds to one grid point (Collapse.allSame; chain_collapses_iff)
+          let same0 := Collapse.allSame id (roundedVerts pm A)
+          let same1 := Collapse.allSame id (roundedVerts pm B)
+          let dom0 := polyOnly A && edgeBearing B
+          let dom1 := polyOnly B && edgeBearing A
+          let empty (r : G) : Bool := (leavesG r).isEmpty
+          -- results are compared up to the sign of zero ordinates
+          let leavesG (r : G) : List Leaf := (Precision.leavesG r).map fun l => { l with pts := l.pts.map fun p => (nzBits p.1, nzBits p.2) }
+          if dom0 && same0 && h0 != some '0' then "bad collapse-model operand=0 all-vertices-round-to-one-point-but-edges-survive"
+          else if dom1 && same1 && h1 != some '0' then "bad collapse-model operand=1 all-vertices-round-to-one-point-but-edges-survive"
+          else if dom1 && h1 == some '0' && !(empty rI) then "bad collapse-law second-operand-has-no-edges intersection-not-empty"
+          else if dom1 && h1 == some '0' && !(empty rR) then "bad collapse-law second-operand-has-no-edges difference(B,A)-not-empty"
+          else if dom1 && h1 == some '0' && leavesG rU != leavesG rD then "bad collapse-law second-operand-has-no-edges union!=difference " ++ firstDiff (leavesG rU) (leavesG rD)
+          else if dom1 && h1 == some '0' && leavesG rU != leavesG rS then "bad collapse-law second-operand-has-no-edges union!=symdifference " ++ firstDiff (leavesG rU) (leavesG rS)
+          else if dom0 && h0 == some '0' && !(empty rI) then "bad collapse-law first-operand-has-no-edges intersection-not-empty"
+          else if dom0 && h0 == some '0' && !(empty rD) then "bad collapse-law first-operand-has-no-edges difference-not-empty"
+          else if dom0 && h0 == some '0' && leavesG rU != leavesG rS then "bad collapse-law first-operand-has-no-edges union!=symdifference " ++ firstDiff (leavesG rU) (leavesG rS)
+          else "ok"
+        | _, _, _, _, _ =>
+          let which := Driver.joinWith "," ((["I", "U", "D", "S", "D(B,A)"].zip [rI, rU, rD, rS, rR]).filterMap fun p => if p.2.isNone then some p.1 else none)
+          s!"bad exception {which}"
+      | _, _, _, _, _, _ => "parse-error"
+    | _, _, _, _ => "parse-error header"
+  | _ => "bad-line"
+
 end Driver.C04
 
 def main (args : List String) : IO UInt32 := do
@@ -177,4 +238,5 @@ def main (args : List String) : IO UInt32 := do
   | ["hotpixel-div"] => Driver.loop (← IO.getStdin) (← IO.getStdout) (Driver.C04.hotpixel true); return 0
   | ["prec-ops"] => Driver.loop (← IO.getStdin) (← IO.getStdout) (Driver.C04.precOps false); return 0
   | ["prec-ops-stat"] => Driver.loop (← IO.getStdin) (← IO.getStdout) (Driver.C04.precOps true); return 0
+  | ["collapse"] => Driver.loop (← IO.getStdin) (← IO.getStdout) Driver.C04.collapseLine; return 0
   | _ => IO.eprintln "usage: drv_c04 precise|hotpixel|prec-ops|prec-ops-stat"; return 2
